@@ -208,6 +208,25 @@ func (s *Sched) SetLateWake(pm int) {
 	s.mu.Unlock()
 }
 
+// StopLags ends the slow-goroutine fault for the rest of the run (faults stop
+// before liveness and quiescence are judged) and returns how long the longest
+// lag still in progress has to go.
+func (s *Sched) StopLags() time.Duration {
+	raceDisable()
+	defer raceEnable()
+	s.mu.Lock()
+	defer s.mu.Unlock()
+	s.cfg.LagPM, s.cfg.LagWakePM = 0, 0
+	var left time.Duration
+	now := time.Now()
+	for _, l := range s.lagSpans {
+		if d := l.end.Sub(now); d > left {
+			left = d
+		}
+	}
+	return left
+}
+
 // Cfg returns the current configuration.
 func (s *Sched) Cfg() Config { return s.cfg }
 
@@ -746,6 +765,11 @@ func (s *Sched) Run(main func()) Outcome {
 		if g.Lib && lagPM > 0 && s.tapes[StrSch].Chance(lagPM, 1000) {
 			// a slow goroutine: it stays where it is for a while, the others go on
 			d := s.stallDuration()
+			if d > time.Second {
+				// (a jump to a far-away instant is for global stalls, where nothing else
+				// happens meanwhile; one goroutine held for minutes is not a schedule worth exploring)
+				d = time.Duration(1+s.tapes[StrSch].Draw(4)) * s.cfg.Grid
+			}
 			g.state = stLagging
 			s.Lags++
 			now := time.Now()
